@@ -9,6 +9,7 @@ import (
 	"encoding/hex"
 	"bytes"
 	"fmt"
+	"os"
 	"reflect"
 	"runtime"
 	"strings"
@@ -87,6 +88,7 @@ func nonMinimalTag(r *rng, rec wrec) wrec {
 
 type dmut struct {
 	r  *rng
+	rw *rng // the widening decisions draw from a stream of their own (the other operations see the stream they saw before)
 	si *schemaInfo
 	// statistics of applied operations
 	ops map[string]int
@@ -128,6 +130,104 @@ func splitPacked(k protoreflect.Kind, payload []byte) ([][]byte, bool) {
 	return out, true
 }
 
+// ---- varints wider than the field (a varint of ANY value is well-typed on every varint-kind field: the reference
+// keeps the low 32 bits for int32/uint32/sint32/enum and takes != 0 for bool) and non-minimal value varints ----
+
+func isVarintKind(k protoreflect.Kind) bool {
+	switch k {
+	case protoreflect.BoolKind, protoreflect.EnumKind, protoreflect.Int32Kind, protoreflect.Sint32Kind, protoreflect.Uint32Kind,
+		protoreflect.Int64Kind, protoreflect.Sint64Kind, protoreflect.Uint64Kind:
+		return true
+	}
+	return false
+}
+
+// varintClass: "32" (value narrower than the varint), "bool", "64"
+func varintClass(k protoreflect.Kind) string {
+	switch k {
+	case protoreflect.BoolKind:
+		return "bool"
+	case protoreflect.Int64Kind, protoreflect.Sint64Kind, protoreflect.Uint64Kind:
+		return "64"
+	}
+	return "32"
+}
+
+// appendVarintN encodes v in exactly n bytes, protowire.SizeVarint(v) <= n <= 10 (redundant continuation bytes; a
+// ten-byte form ends in 0x00 or 0x01, which is what the reference accepts)
+func appendVarintN(b []byte, v uint64, n int) []byte {
+	for i := 0; i < n-1; i++ {
+		b = append(b, byte(v&0x7f)|0x80)
+		v >>= 7
+	}
+	return append(b, byte(v))
+}
+
+// the patterns put into the bits above a 32-bit field (bit 32.. of the varint): the three bits that still live in the
+// fifth byte, the first bit of the sixth, the top bit (ten-byte form), all ones, all but the top
+var highPatterns32 = []uint64{1, 2, 4, 8, 1 << 31, 0xffffffff, 0x7fffffff, 0xfffffffe}
+
+// widenValue: a varint value that the field must read exactly as it reads v
+// (bool: as true) but that does not fit the field's width
+func widenValue(r *rng, k protoreflect.Kind, v uint64) uint64 {
+	switch varintClass(k) {
+	case "32":
+		hi := highPatterns32[r.intn(len(highPatterns32))]
+		if r.intn(3) == 0 {
+			hi = r.u64()>>32 | 1<<uint(r.intn(32))
+		}
+		return v&0xffffffff | hi<<32
+	case "bool":
+		g := []uint64{2, 1 << 7, 1 << 8, 1 << 31, 1 << 32, 1 << 63, 0xfffffffffffffffe, 0xffffffff00000000}[r.intn(8)]
+		if r.intn(3) == 0 {
+			g = r.u64()&^1 | 2<<uint(r.intn(63))
+		}
+		return v&1 | g
+	}
+	return v
+}
+
+// widenVarint re-encodes one varint (raw = exactly its bytes) for a field of kind k: garbage above the field's width
+// and/or a non-minimal length
+func (d *dmut) widenVarint(k protoreflect.Kind, raw []byte, pos string) []byte {
+	v, n := protowire.ConsumeVarint(raw)
+	if n != len(raw) || !isVarintKind(k) {
+		return raw
+	}
+	r := d.rw
+	w := v
+	if varintClass(k) != "64" && r.intn(4) != 0 {
+		w = widenValue(r, k, v)
+	}
+	size := protowire.SizeVarint(w)
+	if w == v || r.intn(3) == 0 {
+		size += 1 + r.intn(10-size+1) // (size 10 stays 10)
+		if size > 10 {
+			size = 10
+		}
+	}
+	if w == v && size == len(raw) {
+		return raw
+	}
+	if w != v {
+		d.op("widen-" + varintClass(k) + "-" + pos)
+	} else {
+		d.op("pad-varint-" + pos)
+	}
+	return appendVarintN(nil, w, size)
+}
+
+// widenRec: the same for a whole varint record (tag kept)
+func (d *dmut) widenRec(k protoreflect.Kind, rec wrec, pos string) wrec {
+	if rec.typ != protowire.VarintType || !isVarintKind(k) {
+		return rec
+	}
+	_, _, n := protowire.ConsumeTag(rec.raw)
+	out := rec
+	out.raw = append(append([]byte{}, rec.raw[:n]...), d.widenVarint(k, rec.raw[n:], pos)...)
+	return out
+}
+
 // mutate returns a well-typed stream for message mi derived from the well-typed stream b
 func (d *dmut) mutate(mi *msgInfo, b []byte, depth int) []byte {
 	recs, ok := parseRecs(b)
@@ -142,9 +242,32 @@ func (d *dmut) mutate(mi *msgInfo, b []byte, depth int) []byte {
 			out = append(out, rec)
 			continue
 		}
+		// varint-kind fields: garbage in the bits above the field's width, non-minimal lengths (generated types only:
+		// inside protobuf-go's own types the reference would be compared with itself)
+		if mi.pulsar && !fd.IsMap() && isVarintKind(fd.Kind()) && d.rw.intn(3) == 0 {
+			switch {
+			case rec.typ == protowire.VarintType:
+				pos := "singular"
+				if fd.IsList() {
+					pos = "unpacked"
+				} else if fd.ContainingOneof() != nil {
+					pos = "oneof"
+				}
+				rec = d.widenRec(fd.Kind(), rec, pos)
+			case rec.typ == protowire.BytesType && fd.IsList():
+				if elems, ok := splitPacked(fd.Kind(), rec.val); ok && len(elems) > 0 {
+					for i := range elems {
+						if d.rw.intn(2) == 0 {
+							elems[i] = d.widenVarint(fd.Kind(), elems[i], "packed")
+						}
+					}
+					rec = bytesRec(rec.num, bytes.Join(elems, nil))
+				}
+			}
+		}
 		switch {
 		case fd.IsMap() && rec.typ == protowire.BytesType:
-			out = append(out, d.mutEntry(fd, rec, depth)...)
+			out = append(out, d.mutEntry(fd, rec, depth, mi.pulsar)...)
 		case fd.Kind() == protoreflect.MessageKind && rec.typ == protowire.BytesType:
 			cmi := d.si.byName[fd.Message().FullName()]
 			payload := rec.val
@@ -285,7 +408,7 @@ func (d *dmut) mutate(mi *msgInfo, b []byte, depth int) []byte {
 }
 
 // mutEntry rewrites one map entry: reordered / missing / duplicated key and value, unknown subfields
-func (d *dmut) mutEntry(fd protoreflect.FieldDescriptor, rec wrec, depth int) []wrec {
+func (d *dmut) mutEntry(fd protoreflect.FieldDescriptor, rec wrec, depth int, widen bool) []wrec {
 	r := d.r
 	sub, ok := parseRecs(rec.val)
 	if !ok {
@@ -294,8 +417,14 @@ func (d *dmut) mutEntry(fd protoreflect.FieldDescriptor, rec wrec, depth int) []
 	var key, val []wrec
 	for _, s := range sub {
 		if s.num == 1 {
+			if widen && d.rw.intn(3) == 0 {
+				s = d.widenRec(fd.MapKey().Kind(), s, "mapkey")
+			}
 			key = append(key, s)
 		} else if s.num == 2 {
+			if widen && d.rw.intn(3) == 0 {
+				s = d.widenRec(fd.MapValue().Kind(), s, "mapvalue")
+			}
 			val = append(val, s)
 		}
 	}
@@ -577,6 +706,401 @@ func (c *decCtx) malformed(mi *msgInfo, b []byte, class string) {
 	}
 }
 
+// sampleScalar: the value bytes (after the tag) of one well-typed occurrence of a scalar of kind k; i varies the value
+func sampleScalar(k protoreflect.Kind, i int) []byte {
+	switch scalarWireType(k) {
+	case protowire.Fixed32Type:
+		return protowire.AppendFixed32(nil, uint32(i)*0x01010101+1)
+	case protowire.Fixed64Type:
+		return protowire.AppendFixed64(nil, uint64(i)*0x0101010101010101+1)
+	case protowire.BytesType:
+		return protowire.AppendBytes(nil, []byte{'k', byte('a' + i%26)})
+	}
+	if k == protoreflect.BoolKind {
+		return []byte{byte(i & 1)}
+	}
+	return protowire.AppendVarint(nil, uint64(i%100))
+}
+
+func scalarRec(num protowire.Number, k protoreflect.Kind, val []byte) []byte {
+	return append(protowire.AppendTag(nil, num, scalarWireType(k)), val...)
+}
+
+// wideVarints: every varint-kind position of the message (singular, oneof member, repeated unpacked / packed / a run
+// of several, map key, map value) x a fixed table of (value, length) pairs in which the varint is wider than the
+// field: garbage in the bits above the width for the 32-bit kinds, enum and bool, boundary values and redundant
+// continuation bytes for all. All of them are well-typed; the reference truncates.
+func (c *decCtx) wideVarints(mi *msgInfo) {
+	r := newRng(c.cfg.seed, "decode-widevarint/"+c.si.id+"."+string(mi.md.Name()))
+	type vn struct {
+		v uint64
+		n int // encoded length (0 = minimal)
+	}
+	table := func(k protoreflect.Kind) []vn {
+		var t []vn
+		switch varintClass(k) {
+		case "32":
+			lows := []uint64{0, 1, 2, 0x7fffffff, 0x80000000, 0xffffffff, r.u64() & 0xffffffff}
+			for i, lo := range lows {
+				for j, hi := range highPatterns32 {
+					if (i+j)%3 == 0 || lo <= 1 { // (a third of the grid, all of it for the smallest values)
+						t = append(t, vn{lo | hi<<32, 0})
+					}
+				}
+				t = append(t, vn{lo | (r.u64()>>32|1)<<32, 0})
+			}
+			t = append(t, vn{1 | 1<<32, 10}, vn{0xffffffff, 10}, vn{2, 5 + r.intn(6)})
+		case "bool":
+			for _, v := range []uint64{2, 3, 0x80, 0x100, 1 << 31, 1 << 32, 1<<32 | 1, 1 << 63, 1<<63 | 1, 0xfffffffffffffffe, 0xffffffffffffffff, 0xffffffff00000000, r.u64() &^ 1 | 2} {
+				t = append(t, vn{v, 0})
+			}
+			t = append(t, vn{0, 2}, vn{0, 5}, vn{0, 10}, vn{1, 2}, vn{1, 10}, vn{2, 10}, vn{1 << 32, 10})
+		default:
+			for _, v := range []uint64{0, 1, 1 << 31, 1 << 32, 1<<32 | 1, 1<<63 - 1, 1 << 63, 1<<63 | 1, 0xfffffffffffffffe, 0xffffffffffffffff, r.u64()} {
+				t = append(t, vn{v, 0})
+				if s := protowire.SizeVarint(v); s < 10 {
+					t = append(t, vn{v, s + 1 + r.intn(10-s)})
+				}
+			}
+		}
+		return t
+	}
+	enc := func(x vn) []byte {
+		n := x.n
+		if s := protowire.SizeVarint(x.v); n < s {
+			n = s
+		}
+		return appendVarintN(nil, x.v, n)
+	}
+	run := func(b []byte, k protoreflect.Kind, pos string) {
+		c.o.count("widevarint_" + varintClass(k) + "_" + pos)
+		c.wellTyped(mi, b, false, false, nil, "widevarint")
+	}
+	for _, fi := range mi.fields {
+		fd := fi.fd
+		num := fd.Number()
+		switch {
+		case fd.IsMap():
+			kk, vk := fd.MapKey().Kind(), fd.MapValue().Kind()
+			val := []byte{}
+			if vk != protoreflect.MessageKind {
+				val = sampleScalar(vk, 7)
+			} else {
+				val = protowire.AppendBytes(nil, nil)
+			}
+			if isVarintKind(kk) {
+				for _, x := range table(kk) {
+					e := append(scalarRec(1, kk, enc(x)), scalarRec(2, vk, val)...)
+					run(bytesRec(num, e).raw, kk, "mapkey")
+				}
+			}
+			if isVarintKind(vk) {
+				for i, x := range table(vk) {
+					e := append(scalarRec(1, kk, sampleScalar(kk, i)), scalarRec(2, vk, enc(x))...)
+					if i%3 == 1 { // value first
+						e = append(scalarRec(2, vk, enc(x)), scalarRec(1, kk, sampleScalar(kk, i))...)
+					}
+					run(bytesRec(num, e).raw, vk, "mapvalue")
+				}
+			}
+		case !isVarintKind(fd.Kind()):
+		case fd.IsList():
+			t := table(fd.Kind())
+			var all []byte
+			for i, x := range t {
+				run(scalarRec(num, fd.Kind(), enc(x)), fd.Kind(), "unpacked")
+				run(bytesRec(num, enc(x)).raw, fd.Kind(), "packed")
+				if i%2 == 0 {
+					all = append(all, enc(x)...)
+				}
+			}
+			run(bytesRec(num, all).raw, fd.Kind(), "packed-run")
+			// a run of wide elements between narrow ones, packed then unpacked occurrences of the same field
+			mixed := append(bytesRec(num, append([]byte{1}, all...)).raw, scalarRec(num, fd.Kind(), enc(t[len(t)/2]))...)
+			run(append(mixed, bytesRec(num, []byte{2}).raw...), fd.Kind(), "packed-mixed")
+		default:
+			pos := "singular"
+			if fd.ContainingOneof() != nil {
+				pos = "oneof"
+			}
+			for i, x := range table(fd.Kind()) {
+				b := scalarRec(num, fd.Kind(), enc(x))
+				if i%4 == 3 { // preceded by a narrow occurrence of itself (last one wins)
+					b = append(scalarRec(num, fd.Kind(), []byte{1}), b...)
+				}
+				run(b, fd.Kind(), pos)
+			}
+		}
+	}
+}
+
+// goElem: bytes one element of a Go slice of this field's type occupies (the part that is copied when the slice grows)
+func goElem(fd protoreflect.FieldDescriptor) int {
+	switch fd.Kind() {
+	case protoreflect.BoolKind:
+		return 1
+	case protoreflect.Int32Kind, protoreflect.Sint32Kind, protoreflect.Uint32Kind, protoreflect.EnumKind,
+		protoreflect.FloatKind, protoreflect.Fixed32Kind, protoreflect.Sfixed32Kind:
+		return 4
+	case protoreflect.StringKind:
+		return 16
+	case protoreflect.BytesKind:
+		return 24
+	}
+	return 8
+}
+
+// goFixed: bytes one occurrence may allocate once, outside any growing slice: the pointee of a message (a new struct,
+// rounded up generously to its size class, plus what the nested Unmarshal call itself allocates: measured ~190 bytes
+// per occurrence of an empty 40-byte message), the copy of a short string/bytes payload
+func (c *decCtx) goFixed(fd protoreflect.FieldDescriptor) int {
+	switch fd.Kind() {
+	case protoreflect.MessageKind, protoreflect.GroupKind:
+		if cmi := c.si.byName[fd.Message().FullName()]; cmi != nil && cmi.goType != nil {
+			return 2*int(cmi.goType.Size()) + 256
+		}
+		return 2048
+	case protoreflect.StringKind, protoreflect.BytesKind:
+		return 16
+	}
+	return 0
+}
+
+// manyOcc: a (valid) stream of nrec occurrences of one field. C06 wants memory in proportion to the input: what
+// Unmarshal itself allocates (runtime.MemStats.TotalAlloc, monotone, read around the call only) is bounded by a
+// linear function of the input: per occurrence 6*elem (elem = bytes of slice element the occurrence adds; append
+// grows by 1.25x..2x and rounds up to a size class, i.e. allocates <= ~6x the final size in total: measured 3.8x at
+// 2 000 elements, 4.6x at 20 000) + fixed (what the occurrence allocates once: a struct, a wrapper, a short string)
+// + 16, and 64 KiB for everything that happens once. With records of r bytes this is c*len(input) + 64 KiB for
+// c = (6*elem+fixed+16)/r. Quadratic behaviour exceeds it by more than an order of magnitude at 2 000 records.
+func (c *decCtx) manyOcc(mi *msgInfo, b []byte, nrec, elem, fixed int, what string) {
+	si, o := c.si, c.o
+	id := si.id + "." + string(mi.md.Name())
+	q := reflect.New(mi.goType).Interface().(proto.Message)
+	in := append([]byte{}, b...)
+	desc := fmt.Sprintf("Unmarshal of %d occurrences (%s, %d bytes: %s...) into %s does not return", nrec, what, len(b), hx(b[:minInt(len(b), 48)]), id)
+	var ms0, ms1 runtime.MemStats
+	var err error
+	var pan interface{}
+	o.guard("C06", "hang/"+si.id, desc, func() {
+		runtime.ReadMemStats(&ms0)
+		err, pan = catchUnmarshal(proto.UnmarshalOptions{}, in, q)
+		runtime.ReadMemStats(&ms1)
+	})
+	allocSink = q
+	alloc := ms1.TotalAlloc - ms0.TotalAlloc
+	bound := uint64(nrec*(6*elem+fixed+16) + (64 << 10))
+	o.count("manyocc_" + what)
+	if nrec > 5000 {
+		o.count("manyocc_long")
+	}
+	if pan == nil && err == nil {
+		o.count("manyocc_accepted")
+		// (slope actually needed, for the histogram: bytes allocated per input byte, next power of two)
+		o.count(fmt.Sprintf("manyocc_alloc_per_input_byte_lt_%d", 1<<uint(bitsLen(uint(alloc)/uint(len(b)+1)))))
+	}
+	if os.Getenv("VERIF_DEBUG_ALLOC") != "" {
+		fmt.Fprintf(os.Stderr, "MANYOCC %s %s nrec=%d len=%d elem=%d fixed=%d alloc=%d bound=%d ratio=%.2f err=%v\n", id, what, nrec, len(b), elem, fixed, alloc, bound, float64(alloc)/float64(bound), err)
+	}
+	o.nontrivial(id + "/manyocc/" + what + "/" + hx(b[:minInt(len(b), 10)]))
+	o.withKey("decode/"+id).prop("C06", pan == nil, fmt.Sprintf("Unmarshal of %d occurrences of one field (%s; %s repeated) into %s panics: %v", nrec, what, hx(b[:minInt(len(b), 24)]), id, pan))
+	stream := hx(b)
+	if len(b) > 32<<10 {
+		stream = hx(b[:256]) + fmt.Sprintf("... (%d more bytes: the records go on in the same way)", len(b)-256)
+	}
+	o.withKey("decode/"+id).prop("C06", alloc <= bound, fmt.Sprintf("Unmarshal of %d bytes = %d occurrences of one field (%s) into %s allocated %d bytes, out of proportion to the input (linear bound %d = %d*(6*%d+%d+16) + 64K); stream %s", len(b), nrec, what, id, alloc, bound, nrec, elem, fixed, stream))
+	if pan != nil {
+		return
+	}
+	// values and errors of the whole stream against the reference (no model line: the extracted model is quadratic in
+	// the number of records - up to 40 s for 2 000 map entries - so it sees the first modelRecs records below)
+	d := dynamicpb.NewMessage(mi.md)
+	rerr, rpan := catchUnmarshal(proto.UnmarshalOptions{}, b, d)
+	if rpan != nil {
+		o.count("reference_panicked")
+	} else if rerr != nil {
+		o.count("welltyped_rejected_by_reference")
+	} else if err != nil {
+		o.withKey("decode/"+id).prop("C03", false, fmt.Sprintf("%s: well-typed stream of %d occurrences of one field (%s; starts %s) rejected (%v); the reference accepts it", id, nrec, what, hx(b[:minInt(len(b), 24)]), err))
+	} else {
+		gs := si.normV(mi, si.fromGo(mi, reflect.ValueOf(q))).String()
+		ws := si.normV(mi, si.fromPR(mi, d)).String()
+		o.count("welltyped_manyocc-full")
+		o.withKey("decode/"+id).prop("C03", gs == ws, fmt.Sprintf("%s: %d occurrences of one field (%s; starts %s): differs from the reference at %s", id, nrec, what, hx(b[:minInt(len(b), 24)]), diffCtx(gs, ws)))
+	}
+	if recs, ok := parseRecs(b); ok {
+		const modelRecs = 256
+		if len(recs) > modelRecs {
+			recs = recs[:modelRecs]
+		}
+		c.wellTyped(mi, joinRecs(recs), false, false, nil, "manyocc")
+	}
+}
+
+func bitsLen(x uint) int {
+	n := 0
+	for ; x > 0; x >>= 1 {
+		n++
+	}
+	return n
+}
+
+// manyOccurrences: class "manyocc": streams of k occurrences of one field. perClass > 0 limits the number of fields
+// per (message, kind of stream), rotating with the seed; kBig > 0 repeats the first chosen stream of every kind
+// with kBig occurrences.
+func (c *decCtx) manyOccurrences(mi *msgInfo, k, perClass, kBig int) {
+	type job struct {
+		what        string
+		rec         func(i int) []byte
+		div         int // records = k/div (+1)
+		elem, fixed int
+	}
+	var jobs []job
+	add := func(what string, div, elem, fixed int, rec func(i int) []byte) {
+		jobs = append(jobs, job{what, rec, div, elem, fixed})
+	}
+	for _, fi := range mi.fields {
+		fd := fi.fd
+		num := fd.Number()
+		kind := fd.Kind()
+		switch {
+		case fd.IsMap():
+			kk, vt := fd.MapKey().Kind(), fd.MapValue()
+			vk := vt.Kind()
+			fixed := c.goFixed(vt) + c.goFixed(fd.MapKey())
+			val := func(i int) []byte {
+				if vk == protoreflect.MessageKind {
+					return protowire.AppendBytes(nil, nil)
+				}
+				return sampleScalar(vk, i)
+			}
+			add("map-same-key", 1, 0, fixed, func(i int) []byte {
+				return bytesRec(num, append(scalarRec(1, kk, sampleScalar(kk, 5)), scalarRec(2, vk, val(3))...)).raw
+			})
+			// two keys alternating, values changing, value before key now and then
+			add("map-two-keys", 1, 0, fixed, func(i int) []byte {
+				if i%3 == 2 {
+					return bytesRec(num, append(scalarRec(2, vk, val(i)), scalarRec(1, kk, sampleScalar(kk, i%2))...)).raw
+				}
+				return bytesRec(num, append(scalarRec(1, kk, sampleScalar(kk, i%2)), scalarRec(2, vk, val(i))...)).raw
+			})
+		case fd.IsList() && scalarWireType(kind) != protowire.BytesType:
+			elem := goElem(fd)
+			one := func(i int) []byte { return bytesRec(num, sampleScalar(kind, i)).raw }
+			unp := func(i int) []byte { return scalarRec(num, kind, sampleScalar(kind, i)) }
+			add("packed-one-element", 1, elem, 0, one)
+			add("unpacked", 1, elem, 0, unp)
+			add("packed-unpacked-alternating", 1, elem, 0, func(i int) []byte {
+				if i%2 == 0 {
+					return one(i)
+				}
+				return unp(i)
+			})
+			add("packed-three-elements", 3, 3*elem, 0, func(i int) []byte {
+				return bytesRec(num, append(append(sampleScalar(kind, i), sampleScalar(kind, i+1)...), sampleScalar(kind, i+2)...)).raw
+			})
+			add("packed-one-element-and-empty", 1, elem, 0, func(i int) []byte {
+				if i%5 == 4 {
+					return bytesRec(num, nil).raw // an empty packed occurrence in between
+				}
+				return one(i)
+			})
+		case fd.IsList() && kind != protoreflect.MessageKind:
+			add("repeated-bytes", 1, goElem(fd), c.goFixed(fd), func(i int) []byte { return scalarRec(num, kind, sampleScalar(kind, i)) })
+		case fd.IsList():
+			add("repeated-message", 1, 8, c.goFixed(fd), func(i int) []byte { return bytesRec(num, nil).raw })
+		case kind == protoreflect.MessageKind:
+			// occurrences of a singular (or oneof member) message: all merged into one; every other payload sets a
+			// numeric field of the child when it has one
+			var payload []byte
+			if cmi := c.si.byName[fd.Message().FullName()]; cmi != nil {
+				for _, cf := range cmi.fields {
+					if !cf.fd.IsList() && !cf.fd.IsMap() && scalarWireType(cf.fd.Kind()) != protowire.BytesType && cf.fd.Kind() != protoreflect.GroupKind {
+						payload = scalarRec(cf.fd.Number(), cf.fd.Kind(), sampleScalar(cf.fd.Kind(), 1))
+						break
+					}
+				}
+			}
+			what, fixed := "singular-message-merge", 128
+			if fd.ContainingOneof() != nil {
+				what, fixed = "oneof-message-merge", 16+c.goFixed(fd) // (a struct and a wrapper per occurrence)
+			}
+			add(what, 1, 0, fixed, func(i int) []byte {
+				if i%2 == 0 {
+					return bytesRec(num, nil).raw
+				}
+				return bytesRec(num, payload).raw
+			})
+		default:
+			what, fixed := "singular-replaced", c.goFixed(fd)
+			if fixed > 0 {
+				what = "singular-bytes-replaced"
+			}
+			if fd.ContainingOneof() != nil {
+				what, fixed = "oneof-member-replaced", 32+c.goFixed(fd) // (a wrapper per occurrence)
+			}
+			add(what, 1, 0, fixed, func(i int) []byte { return scalarRec(num, kind, sampleScalar(kind, i)) })
+		}
+	}
+	// members of one oneof alternating (each occurrence clears the other)
+	for i := 0; i < mi.md.Oneofs().Len(); i++ {
+		od := mi.md.Oneofs().Get(i)
+		if od.IsSynthetic() || od.Fields().Len() < 2 {
+			continue
+		}
+		fixed := 0
+		for j := 0; j < od.Fields().Len(); j++ {
+			fixed = maxInt(fixed, 32+c.goFixed(od.Fields().Get(j)))
+		}
+		m := od.Fields().Len()
+		add("oneof-members-alternating", 1, 0, fixed, func(i int) []byte {
+			fd := od.Fields().Get(i % m)
+			if fd.Kind() == protoreflect.MessageKind || fd.Kind() == protoreflect.GroupKind {
+				return bytesRec(fd.Number(), nil).raw
+			}
+			return scalarRec(fd.Number(), fd.Kind(), sampleScalar(fd.Kind(), i))
+		})
+	}
+	// selection
+	byWhat := map[string][]job{}
+	var order []string
+	for _, j := range jobs {
+		if _, ok := byWhat[j.what]; !ok {
+			order = append(order, j.what)
+		}
+		byWhat[j.what] = append(byWhat[j.what], j)
+	}
+	run := func(j job, n int) {
+		n = n/j.div + 1
+		var b []byte
+		for i := 0; i < n; i++ {
+			b = append(b, j.rec(i)...)
+		}
+		c.manyOcc(mi, b, n, j.elem, j.fixed, j.what)
+	}
+	for wi, what := range order {
+		js := byWhat[what]
+		take := len(js)
+		if perClass > 0 && perClass < take {
+			take = perClass
+		}
+		off := (int(c.cfg.seed%1000) + 3*wi) % len(js)
+		for t := 0; t < take; t++ {
+			run(js[(off+t)%len(js)], k)
+		}
+		if kBig > 0 {
+			run(js[off], kBig)
+		}
+	}
+}
+
+func maxInt(a, b int) int {
+	if a > b {
+		return a
+	}
+	return b
+}
+
 // nest wraps payload n times in field num (length-delimited)
 func nest(num protowire.Number, n int, inner []byte) []byte {
 	b := inner
@@ -603,7 +1127,7 @@ func engineDecode(cfg config, o *out) {
 		o.raw("SCHEMA\t" + si.id + "\t=\t" + si.sexp())
 		cc := &codecCtx{o: o, si: si, r: newRng(cfg.seed, "decode/"+si.id), cfg: cfg}
 		g := &vgen{r: cc.r, si: si}
-		mut := &dmut{r: cc.r, si: si, ops: ops}
+		mut := &dmut{r: cc.r, rw: newRng(cfg.seed, "decode-widen/"+si.id), si: si, ops: ops}
 		for _, mi := range si.roots() {
 			c := &decCtx{codecCtx: cc, modelOK: !reachesNonPulsar(si, mi, map[*msgInfo]bool{})}
 			n := 25
@@ -618,6 +1142,8 @@ func engineDecode(cfg config, o *out) {
 				b, _ := hex.DecodeString(h)
 				c.wellTyped(mi, b, false, false, nil, "regression")
 			}
+			// varints wider than the field, at every varint-kind position
+			c.wideVarints(mi)
 			var encs [][]byte
 			for k := 0; k < n; k++ {
 				v := g.msg(mi, 3, 3+cc.r.intn(6))
@@ -784,6 +1310,14 @@ func engineDecode(cfg config, o *out) {
 						}
 					}
 				}
+			}
+			// many occurrences of one field: allocation in proportion to the input
+			if !cfg.thorough() {
+				c.manyOccurrences(mi, 2000, 2, 0)
+			} else if strings.HasSuffix(si.id, "test3") || strings.HasSuffix(si.id, "testpb") {
+				c.manyOccurrences(mi, 2000, 0, 20000)
+			} else {
+				c.manyOccurrences(mi, 2000, 0, 0)
 			}
 			// random bytes
 			nr := 40
